@@ -112,6 +112,21 @@ def build(inst):
         # move the box away from the unconstrained minimiser in some coordinates
         sh = (rng.random(n) < 0.6) * rng.choice([-1.0, 1.0], size=n) * (wl + wu)
         lo, hi = lo + sh, hi + sh
+    if inst.get("boxaway") and (lo is None) != (hi is None):
+        # one-sided bounds pushed past the unconstrained minimiser in some coordinates (the solution then sits on them)
+        sh = (rng.random(n) < 0.7) * (wl + wu)
+        if lo is not None:
+            lo = lo + sh
+        else:
+            hi = hi - sh
+    if inst.get("smallbounds") and (lo is not None or hi is not None):
+        # translate the whole problem so that the (one-sided) bounds are small numbers with many significant digits while x0 stays O(1) away:
+        # then bound - xbase rounds, and xbase + (bound - xbase) is one unit of rounding off the bound about half of the time
+        ref = lo if lo is not None else hi
+        t = ref - rng.uniform(-0.3, 0.3, size=n)
+        c = c - t
+        lo = None if lo is None else lo - t
+        hi = None if hi is None else hi - t
     rhobeg = float(inst.get("rhobeg", 0.1 if inst.get("scaling") else 0.2))
     # starting point: per coordinate placement relative to the bounds
     x0 = c + rng.normal(size=n) * float(inst.get("x0spread", 1.0))
@@ -151,6 +166,31 @@ def build(inst):
             x0[j] = L - 1e-7
         elif p == "slightU" and U is not None:
             x0[j] = U + 1e-7
+    if inst.get("tgtonbound") and (lo is None) != (hi is None):
+        # zero-residual 'target' problem whose solution lies ON the one-sided bounds in most coordinates (the run ends with a trial point there)
+        bnd = lo if lo is not None else hi
+        for j in range(n):
+            if rng.random() < 0.7:
+                tgt[j] = bnd[j] - c[j]
+            else:
+                tgt[j] = bnd[j] - c[j] + (1.0 if lo is not None else -1.0) * rng.uniform(0.5, 1.5)
+    if inst.get("roundout"):
+        # starting points for which the base-point arithmetic xbase + (bound - xbase) lands one unit of rounding OUTSIDE the bound (class chosen by
+        # rejection: about a third of random pairs have it when the bound is small against the distance)
+        for j in range(n):
+            for t in range(300):
+                if lo is not None and hi is None:
+                    if x0[j] + (lo[j] - x0[j]) < lo[j]:
+                        break
+                    if t % 25 == 24:
+                        lo[j] = np.nextafter(lo[j], np.inf)      # whether it can happen at all depends on the last bits of the bound
+                    x0[j] = rng.uniform(lo[j] + 0.5, lo[j] + 2.0)
+                elif hi is not None and lo is None:
+                    if x0[j] + (hi[j] - x0[j]) > hi[j]:
+                        break
+                    if t % 25 == 24:
+                        hi[j] = np.nextafter(hi[j], -np.inf)
+                    x0[j] = rng.uniform(hi[j] - 2.0, hi[j] - 0.5)
     if inst.get("x0atmin"):
         x0 = c + tgt          # start exactly at the minimiser of the 'target' problems: the first run cannot improve on f(x0)
     if inst.get("x0far"):
